@@ -92,7 +92,7 @@ def transactional_entries(cfg):
     """the names of App's transactional entry points: the classified ones, and every other `&mut self` method of App that wraps
     App.storage in `transactional` (it is then held to the obligations of C01.R2 like the classified ones)"""
     F = cfg.facts
-    names = [n for n, c in ENTRY_CLASSES.items() if c == "transactional"]
+    names = [n for n, c in ENTRY_CLASSES.items() if c == "transactional" and not _delegates_to_entry(cfg, "app::App::" + n)]
     for imp in F.impls:
         if imp["self_name"] != APP or imp["derived"]:
             continue
@@ -103,6 +103,24 @@ def transactional_entries(cfg):
             if q.lexical_calls(F, m["key"], TRANSACTIONAL) and m["name"] not in names:
                 names.append(m["name"])
     return names
+
+
+def _delegates_to_entry(cfg, key):
+    """a classified transactional entry point written as a wrapper of another one (`wasm_sudo` building its message and calling
+    `self.sudo(msg.into())`): it opens no transaction of its own, reaches chain state only by handing `self` to a classified
+    entry point, and answers with that call's verdict - it is then as atomic as the entry it calls"""
+    F, P = cfg.facts, cfg.prov
+    f = F.fn(key)
+    if f is None or q.lexical_calls(F, key, TRANSACTIONAL) or not _touches_no_chain_state(cfg, key):
+        return False
+    sites = [(b, t) for b, t in f.calls() if t["callee"]["key"].startswith("app::App::") and ENTRY_CLASSES.get(t["callee"]["name"]) == "transactional" and
+             t["callee"]["key"] != key and is_param(P.call_args(f, t, b)[0], "self")]
+    if len(sites) != 1:
+        return False
+    b, t = sites[0]
+    rets = [peel(v) for site, v in q.success_return_sites(P, f)]
+    return q.error_propagates(P, f, b) and bool(rets) and all(
+        contains(v, lambda x: x[0] == "call" and x[1] == t["callee"]["key"]) for v in rets)
 
 
 def _well_formed_boundary(cfg, caller):
@@ -377,6 +395,8 @@ def r3_commit(ctx, cfg):
                ((c0[0] == "call" and c0[1] == "transactions::StorageTransaction::prepare"
                  and peel(c0[2][0])[0] == "call" and peel(c0[2][0])[1] == "transactions::StorageTransaction::new") or
                 (c0[0] == "field" and c0[2] == "rep_log" and peel(c0[1])[0] == "call" and peel(c0[1])[1] == "transactions::StorageTransaction::new")))
+    from rules import C06
+    C06.r_prepare(ctx, cfg, R)          # ... and prepare(cache) is the cache's whole log
     ctx.ob(R, key, "c:commit(prepare(cache), base)", ok_args,
            "commit must replay prepare(cache) onto base, got (%s)" % ", ".join(fmt(x) for x in cargs), fn=f,
            line=ct["line"], sample="commit(prepare(cache), base)")
